@@ -62,6 +62,11 @@ ASSUMPTIONS = [
 # workload
 
 
+def seed_choice(tape):
+    """0 is a legal seed like any other (and falsy)."""
+    return 0 if tape.chance('seed_zero', 1, 8) else tape.int('seed', 1, 2 ** 20)
+
+
 def gen_workload(tape):
     family = tape.choice('family', ['inference', 'dag'])
     if family == 'inference':
@@ -93,12 +98,20 @@ def gen_workload(tape):
         k = tape.choice('op_kind', kinds)
         if k == 'generate':
             outs = tape.subset('outputs', names, 1, 2) or [tape.choice('output', names)]
-            ops.append({'id': 'g%d' % i, 'kind': 'generate', 'bs': tape.int('bs', 1, 5),
-                        'outputs': outs, 'seed': tape.int('seed', 0, 2 ** 20)})
+            bs_ = tape.int('bs', 1, 5)
+            wv = {}
+            if tape.chance('with_values', 1, 3):
+                # supplied values are part of the operation (the same in every history)
+                for nm in tape.subset('with_values_nodes', [n_ for n_ in names
+                                                            if n_.lower()[:1] == 'p' or
+                                                            n_.startswith('t')], 1, 2):
+                    wv[nm] = [0.25 + 0.125 * j + 0.01 * tape.int('wv', 0, 50) for j in range(bs_)]
+            ops.append({'id': 'g%d' % i, 'kind': 'generate', 'bs': bs_,
+                        'outputs': outs, 'seed': seed_choice(tape), 'with_values': wv})
         elif k == 'compute':
             outs = tape.subset('outputs', names, 1, 2) or [tape.choice('output', names)]
             ops.append({'id': 'c%d' % i, 'kind': 'compute', 'bs': tape.int('bs', 1, 5),
-                        'outputs': outs, 'seed': tape.int('seed', 0, 2 ** 20),
+                        'outputs': outs, 'seed': seed_choice(tape),
                         'indices': sorted({tape.int('index', 0, 12)
                                            for _ in range(tape.int('n_idx', 2, 5))})})
         else:
@@ -307,8 +320,9 @@ def run(tape, kind, k_hist=None):
                     cur[0] = 'r0'
                     reqs['r0'] = 0
                     try:
+                        wv_ = {k_: np.array(v_) for k_, v_ in (op.get('with_values') or {}).items()}
                         res = model.generate(op['bs'], outputs=list(op['outputs']),
-                                             seed=op['seed'])
+                                             with_values=wv_ or None, seed=op['seed'])
                         d = sp.dg({k: np.asarray(v) for k, v in res.items()})
                     except Exception as e:
                         d = 'raises:' + type(e).__name__
